@@ -26,10 +26,10 @@ BUDGET_S = {"quick": 25, "thorough": 600}
 FLOORS = {
     "quick": {"evaluations": 30000, "distinct": 8000,
               "counters": {"lookahead_on_iterator": 5000, "else_taken": 1000, "filtered": 2000,
-                           "recursive": 100, "async_iterable": 1000}},
+                           "recursive": 100, "async_iterable": 1000, "wrapped_queries": 300}},
     "thorough": {"evaluations": 300000, "distinct": 60000,
                  "counters": {"lookahead_on_iterator": 50000, "else_taken": 10000, "filtered": 20000,
-                              "recursive": 2000, "async_iterable": 10000}},
+                              "recursive": 2000, "async_iterable": 10000, "wrapped_queries": 3000}},
 }
 
 ATTRS = ["index", "index0", "revindex", "revindex0", "first", "last", "length", "previtem", "nextitem"]
@@ -81,11 +81,37 @@ def script_stmts(script):
     return out
 
 
-def loop_ast(scripts, filt, with_else):
+WRAPS = [None, "if", "with", "setblock", "filterblock", "callblock", "nested"]
+
+
+def wrap_stmts(inner, wrap):
+    """Put the loop-attribute queries inside another construct, so that the
+    only references to `loop` in the loop body are nested in it."""
+    if wrap is None:
+        return inner
+    if wrap == "if":
+        return [["if", [[["const", True], inner]], None]]
+    if wrap == "with":
+        return [["with", [["wv", C(1)]], inner]]
+    if wrap == "setblock":
+        return [["setblock", "sb", inner], ["out", N("sb")]]
+    if wrap == "filterblock":
+        return [["filterblock", "trim", [], inner]]
+    if wrap == "callblock":
+        return [["callblock", [], ["call", N("wrapmacro"), [], []], inner]]
+    if wrap == "nested":
+        return [["if", [[["const", True], [["callblock", [], ["call", N("wrapmacro"), [], []],
+                                              [["with", [["wv", C(1)]], inner]]]]]], None]]
+    raise ValueError(wrap)
+
+
+def loop_ast(scripts, filt, with_else, wrap=None):
     """scripts: one script (uniform) or three (first, middle, last-by-counter)."""
     if len(scripts) == 1:
-        inner = script_stmts(scripts[0])
+        inner = wrap_stmts(script_stmts(scripts[0]), wrap)
         pre = []
+        if wrap in ("callblock", "nested"):
+            pre = [["macro", "wrapmacro", [], [["out", ["call", N("caller"), [], []]]]]]
     else:
         pre = [["set", "ns", ["call", N("namespace"), [], [["i", C(0)]]]]]
         inner = [["if", [[["cmp", ["attr", N("ns"), "i"], [["==", C(0)]]], script_stmts(scripts[0])],
@@ -116,14 +142,16 @@ def get_templates(envs, key, body):
     return t
 
 
-def check(ctx, envs, scripts, filt, with_else, form, xs, k=2):
-    body = loop_ast(scripts, filt, with_else)
-    key = (tuple(tuple(s) for s in scripts), filt, with_else)
+def check(ctx, envs, scripts, filt, with_else, form, xs, k=2, wrap=None):
+    body = loop_ast(scripts, filt, with_else, wrap)
+    key = (tuple(tuple(s) for s in scripts), filt, with_else, wrap)
+    if wrap:
+        ctx.count("wrapped_queries")
     tm = get_templates(envs, key, body)
     it = M.Interp({"t": body})
     mo = util.capture(lambda: it.render("t", {"seq": list(xs), "k": k}))
     case = {"scripts": [list(s) for s in scripts], "filt": filt, "else": with_else, "form": form,
-            "xs": list(xs), "k": k}
+            "xs": list(xs), "k": k, "wrap": wrap}
     for en, t in tm.items():
         if form == "agen" and en != "async":
             continue
@@ -138,7 +166,7 @@ def check(ctx, envs, scripts, filt, with_else, form, xs, k=2):
         if bad:
             la = sorted({a for s in scripts for a in s} & LOOKAHEAD)
             key2 = "loop:" + form + ":" + ("+".join(la) or "nolookahead") + (":filter" if filt else "") + \
-                (":varying" if len(scripts) > 1 else "")
+                (":varying" if len(scripts) > 1 else "") + (":in-" + wrap if wrap else "")
             ctx.violation(key2, f"{bad} | {jast.ps(body)!r} seq={list(xs)} form={form} env={en}", case)
     allq = {a for s in scripts for a in s}
     if form in ("iter", "gen", "unsized", "agen") and allq & LOOKAHEAD:
@@ -202,6 +230,16 @@ def run(ctx):
             ctx.inconc("uniform-script enumeration did not finish in 2.5x budget")
             return
     ctx.exhaustive = True
+    # ---- every single query inside every wrapper construct
+    j = 0
+    for a in ATTRS + ["cycle", "changed", "depth"]:
+        for wrap in WRAPS[1:]:
+            j += 1
+            if not ctx.mine(j):
+                continue
+            for n in (0, 1, 3):
+                for form in ("list", "gen", "agen"):
+                    check(ctx, envs, [(a,)], None, True, form, [(7 * i + 3) % 10 for i in range(n)], wrap=wrap)
     # ---- probes with cycle/changed/depth, filters, varying scripts (sampled)
     extra = ATTRS + ["cycle", "changed", "depth", "depth0"]
     n_rand = 1500 if quick else 60000
@@ -217,7 +255,8 @@ def run(ctx):
             sc = [tuple(rng.choice(ATTRS) for _ in range(rng.randint(0, 2))) for _ in range(3)]
             ctx.count("varying_scripts")
         filt = rng.choice([None, "odd", "gt"])
-        check(ctx, envs, sc, filt, rng.random() < 0.6, form, xs, k=rng.randint(0, 9))
+        wrap = rng.choice(WRAPS) if len(sc) == 1 and rng.random() < 0.5 else None
+        check(ctx, envs, sc, filt, rng.random() < 0.6, form, xs, k=rng.randint(0, 9), wrap=wrap)
         if i % 10 == 0:
             recursive_case(ctx, envs, rng)
     if ctx.shard == 0:
@@ -230,4 +269,4 @@ def replay(ctx, case):
     if "recursive" in case:
         return
     check(ctx, envs, [tuple(s) for s in case["scripts"]], case["filt"], case["else"], case["form"],
-          case["xs"], case["k"])
+          case["xs"], case["k"], case.get("wrap"))
